@@ -32,6 +32,7 @@ static void bfs_push(int parent, int op, uint64_t h, int depth) {
 
 /* replay one explicit history with the oracle on every step (used by --case replays and by tree mode) */
 static bool bfs_replay(bfs_sys *S, const int *ops, int nops, uint64_t *canon_out) {
+	vh_case_seq++;          /* progress mark for the watchdog: a search is one "case" but consists of many executions */
 	if (S->open(S->ctx)) { S->nops = 0; vh_violation("open", "%s", bfs_fail); return false; }
 	bool ok = true;
 	for (int i = 0; i < nops; i++) {
@@ -64,6 +65,7 @@ static bool bfs_run(bfs_sys *S) {
 		na = S->alphabet(S->ctx, alpha, 512);
 		S->close(S->ctx);
 		for (int ai = 0; ai < na; ai++) {
+			vh_case_seq++;
 			if (S->open(S->ctx)) { vh_violation("open", "%s", bfs_fail); return false; }
 			pre = true; for (int i = 0; i < d && pre; i++) pre = S->step(S->ctx, base[i]);
 			if (!pre) { printf("@error \"bfs: replay of a checked history failed\"\n"); S->close(S->ctx); return false; }
